@@ -263,7 +263,7 @@ theorem wf_step (hK : K.Laws) (h : Inv K parseOk s) (ev : Ev) (hok : ev.ok = tru
       simp only [stepEv]
       split
       · exact h
-      · exact inv_createPipe hK h p (by simpa [Ev.ok] using hok)
+      · exact inv_gstep hK h (.createPipe p) (by simpa [Ev.ok, Op.pipeName] using hok)
     | restart => simp [startDisk] at hd
     | crash => simp [startDisk] at hd
     | crashIn o c => simp only [startDisk] at hd; split at hd <;> cases hd
@@ -373,7 +373,9 @@ theorem cex_reachable_pipe_s (hK : K.Laws) (parseOk : TagLine → Bool) (pm : Po
   have hf : pipeDefsSavedOnCreate = true := by decide
   generalize hS : reach K parseOk [Ev.op (.createPipe ⟨pipeNameS, [], []⟩), Ev.op (.savePipeInfo pipeNameS pm)] = S
   have hSe : S = step K (step K (initSrv K parseOk) (.createPipe ⟨pipeNameS, [], []⟩)) (.savePipeInfo pipeNameS pm) := by
-    rw [← hS]; simp [reach, runEv, stepEv, gstep, enabled]
+    have hc : changedByJson pipeNameS = false := by decide +kernel
+    have hc0 : changedByJson [] = false := by decide +kernel
+    rw [← hS]; simp [reach, runEv, stepEv, gstep, enabled, hc, hc0]
   have hfile : S.disk.files pipesDat = some (K.pinfo.enc pm) := by
     rw [hSe]; simp only [step, savePipeInfoSteps, runSteps_writeFile, hp]; simp
   have hti : S.disk.files .tindexDat = some (K.tidx.enc []) := by
